@@ -21,8 +21,9 @@ let model input =
   let (_, clean) = run_outs h.forbidden s0 h.subs in
   let (_, pre) = run_outs h.forbidden s0 (firstn i h.subs) in
   let hi = Stdlib.List.nth h.subs i in
-  let crash = Crash.crash_state h.forbidden pre hi (nat_of_int k) in
-  let o_i = if mode = "kill" then "K" else
+  let crash = if mode = "ckill" then Crash.commit_crash_state h.forbidden pre hi (nat_of_int k)
+    else Crash.crash_state h.forbidden pre hi (nat_of_int k) in
+  let o_i = if mode = "kill" then "K" else if mode = "ckill" then "X" else
       (match Crash.fault_kind h.forbidden pre hi (nat_of_int k) with
        | Crash.FChainUpdateFail -> "EU" | Crash.FHeaderSaveFail -> "ES" | Crash.FNoWrite -> "NOWRITE") in
   let (outs, after_fault) =
@@ -50,7 +51,7 @@ let spec input obs =
     let (red_outs, red_rows_s) = split2 '/' (strip "redeliver:" red) in
     let clean_s = strip "clean:" clean in
     let red_rows = parse_rows red_rows_s in
-    let bad_out o = o = "P" || o = "K" || (Stdlib.String.length o > 0 && o.[0] = 'E') in
+    let bad_out o = o = "P" || o = "K" || o = "X" || (Stdlib.String.length o > 0 && o.[0] = 'E') in
     if not (Crash.struct_validb crash_rows) then "FAIL store-invalid-after-restart " ^ crash_rows_s
     else if not (Crash.persistb pre crash_rows) then "FAIL acknowledged-header-lost-or-altered " ^ crash_rows_s
     else if Stdlib.List.exists bad_out (split_on ',' red_outs) then "FAIL redelivery-stuck " ^ red_outs
